@@ -418,6 +418,23 @@ func c07Conn(r *fw.R, beh string, role Role, p wire.Params, seed uint64, success
 		}
 	}()
 
+	// what Conn.Read returned stays this connection's: re-verified when the connection is done, after
+	// other connections have been reading
+	type keptMsg struct {
+		m    uint32
+		data []byte
+	}
+	var kept []keptMsg
+	defer func() {
+		for _, km := range kept {
+			if w := checkProvenance(km.data, k, km.m); w != "" {
+				r.Violate("C07/read-result-changed-later", fmt.Sprintf("connection %d: the slice Read returned for message %d was this connection's data when it was returned and is not any more: %s", k, km.m, w), "")
+				return
+			}
+		}
+		r.Count("read_results_verified_again_later", int64(len(kept)))
+	}()
+
 	sendMsg := func(m uint32, size int, comp bool, frags int, end wire.EndMode) []wire.Frame {
 		payload := provPayload(k, m, size)
 		wp := payload
@@ -613,7 +630,8 @@ func c07Conn(r *fw.R, beh string, role Role, p wire.Params, seed uint64, success
 			return
 		}
 		if el := time.Since(tw); el > 5*time.Second {
-			r.Violate("C07/write-stalled", fmt.Sprintf("connection %d (%s): a Write to a reading peer took %v (message %d of %d)", k, beh, el, m, nm), "")
+			// (not a verdict: isolation is the subject here, and on a loaded machine the race build is slow)
+			r.Count("writes_that_took_over_5s", 1)
 		}
 		if !special {
 			for _, f := range frs {
@@ -622,6 +640,22 @@ func c07Conn(r *fw.R, beh string, role Role, p wire.Params, seed uint64, success
 			bs := bufsz
 			if size > 5000 && bs < 100 {
 				bs = 1000 // (tens of thousands of 1 byte reads under the race detector and hooks take minutes)
+			}
+			if beh == "plain" && m%3 == 1 {
+				// one-shot Read; the result is kept
+				_, data, err := c.Read(ctx)
+				if err != nil {
+					r.Violate("C07/read-failed", fmt.Sprintf("connection %d (%s): reading a valid message failed: %v", k, beh, err), "")
+					outcome = "error"
+					return
+				}
+				if w := checkProvenance(data, k, m); w != "" || len(data) != size {
+					r.Violate("C07/foreign-bytes-in-read/"+beh, fmt.Sprintf("connection %d: message %d read with Read (%d of %d bytes): %s", k, m, len(data), size, w), "")
+					return
+				}
+				r.Count("granules_verified", int64(len(data)/16))
+				kept = append(kept, keptMsg{m, data})
+				continue
 			}
 			if _, err := c07ReadMsg(ctx, r, c, k, m, beh, bs); err != nil {
 				if err.Error() != "provenance" && err.Error() != "read after eof" {
@@ -715,6 +749,24 @@ func c07Conn(r *fw.R, beh string, role Role, p wire.Params, seed uint64, success
 				c.Close(websocket.StatusNormalClosure, "")
 			} else {
 				c.CloseNow()
+			}
+			if err == nil {
+				// the application goes on reading from the reader of the closed connection while other
+				// connections use the pools: nothing may come out of it
+				buf := make([]byte, 512)
+				for i := 0; i < 6; i++ {
+					time.Sleep(200 * time.Microsecond)
+					n, e := rd.Read(buf)
+					r.Count("reads_on_a_closed_connections_reader", 1)
+					if n > 0 {
+						what := scanForeign(buf[:n], k)
+						if what == "" {
+							what = fmt.Sprintf("%d bytes %x", n, buf[:min(n, 24)])
+						}
+						r.Violate("C07/read-after-close-returns-data", fmt.Sprintf("connection %d: a Read on the abandoned message reader after %s returned %s (err=%v)", k, strings.TrimPrefix(beh, "abandon-half-read+"), what, e), "")
+						break
+					}
+				}
 			}
 		case "protocol-error-mid-message":
 			peer.Send(frs[0])
